@@ -27,6 +27,7 @@ import (
 	"github.com/ipfs/go-datastore/query"
 	dssync "github.com/ipfs/go-datastore/sync"
 	"github.com/ipld/go-ipld-prime"
+	_ "github.com/ipld/go-ipld-prime/codec/raw" // raw-codec blocks decode as bytes nodes
 	"github.com/ipld/go-ipld-prime/datamodel"
 	"github.com/ipld/go-ipld-prime/fluent"
 	cidlink "github.com/ipld/go-ipld-prime/linking/cid"
@@ -244,6 +245,28 @@ func (w *World) AddNode(direct []cid.Cid, nested []cid.Cid) cid.Cid {
 	return w.store(n)
 }
 
+// AddRaw stores data as a raw-codec block (CID: codec raw, the world's hash function).  The
+// real Publisher re-encodes every block as dag-json and so cannot serve raw blocks; the
+// Server answers requests for them with the stored bytes itself.
+func (w *World) AddRaw(data []byte) cid.Cid {
+	pf := w.Proto.Prefix
+	pf.Codec = cid.Raw
+	c, err := pf.Sum(data)
+	if err != nil {
+		panic(err)
+	}
+	if _, dup := w.byCid[c]; dup {
+		panic("syncdrv: duplicate block " + c.String())
+	}
+	if err := w.DS.Put(context.Background(), DSKey(c), data); err != nil {
+		panic(err)
+	}
+	b := &Block{Rank: len(w.Blocks) + 1, Cid: c, Raw: data}
+	w.Blocks = append(w.Blocks, b)
+	w.byCid[c] = b
+	return c
+}
+
 // AdChain appends n advertisements (oldest first) on top of prev; returns them newest
 // first.
 func (w *World) AdChain(n int, prev cid.Cid) []cid.Cid {
@@ -291,7 +314,15 @@ type Server struct {
 	nblock  int
 	hidden  map[cid.Cid]bool // blocks the publisher pretends not to have
 	rewrite Rewriter
+	cutter  Cutter
+	world   *World
 }
+
+// Cutter may cut a block response short IN MID-BODY: return k >= 0 to send the response
+// head with the full Content-Length, k bytes of the body, and then close the connection
+// (the client sees a 200 answer whose body ends with an unexpected EOF); return -1 to let
+// the response through.  idx is the index of this block request since the last Reset.
+type Cutter func(idx int, c cid.Cid) int
 
 const ipniPrefix = "/ipni/v1/ad/"
 
@@ -304,7 +335,7 @@ func NewServer(w *World, key ic.PrivKey) *Server {
 	if err != nil {
 		panic(err)
 	}
-	s := &Server{Pub: pub, Key: key, PeerID: pid, hidden: map[cid.Cid]bool{}}
+	s := &Server{Pub: pub, Key: key, PeerID: pid, hidden: map[cid.Cid]bool{}, world: w}
 	s.TS = httptest.NewServer(s)
 	u, err := url.Parse(s.TS.URL)
 	if err != nil {
@@ -347,18 +378,53 @@ func (s *Server) ServeHTTP(w http.ResponseWriter, r *http.Request) {
 	}
 	hidden := req.Cid != cid.Undef && s.hidden[req.Cid]
 	rw := s.rewrite
+	cut := s.cutter
 	s.mu.Unlock()
 	if hidden {
 		http.Error(w, "cid not found", http.StatusNotFound)
 		return
 	}
-	if rw == nil || req.Cid == cid.Undef {
+	if req.Cid == cid.Undef {
 		s.Pub.ServeHTTP(w, r)
 		return
 	}
-	rec := httptest.NewRecorder()
-	s.Pub.ServeHTTP(rec, r)
-	status, body := rw(idx, req.Cid, rec.Code, rec.Body.Bytes())
+	isRaw := req.Cid.Prefix().Codec == cid.Raw
+	if rw == nil && cut == nil && !isRaw {
+		s.Pub.ServeHTTP(w, r)
+		return
+	}
+	var status int
+	var body []byte
+	if isRaw {
+		// the Publisher would re-encode the bytes node as dag-json: serve the block itself
+		if b, ok := s.world.byCid[req.Cid]; ok {
+			status, body = http.StatusOK, b.Raw
+		} else {
+			status, body = http.StatusNotFound, []byte("cid not found\n")
+		}
+	} else {
+		rec := httptest.NewRecorder()
+		s.Pub.ServeHTTP(rec, r)
+		status, body = rec.Code, rec.Body.Bytes()
+	}
+	if rw != nil {
+		status, body = rw(idx, req.Cid, status, body)
+	}
+	if cut != nil {
+		if k := cut(idx, req.Cid); k >= 0 && k < len(body) {
+			if hj, ok := w.(http.Hijacker); ok {
+				conn, buf, err := hj.Hijack()
+				if err == nil {
+					fmt.Fprintf(buf, "HTTP/1.1 %d %s\r\nContent-Length: %d\r\nContent-Type: application/json\r\n\r\n", status, http.StatusText(status), len(body))
+					_, _ = buf.Write(body[:k])
+					_ = buf.Flush()
+					_ = conn.Close()
+					return
+				}
+			}
+			panic("syncdrv: cannot hijack the connection")
+		}
+	}
 	w.WriteHeader(status)
 	_, _ = w.Write(body)
 }
@@ -373,6 +439,14 @@ func (s *Server) Reset(hidden []cid.Cid, rw Rewriter) {
 		s.hidden[c] = true
 	}
 	s.rewrite = rw
+	s.cutter = nil
+	s.mu.Unlock()
+}
+
+// SetCutter installs a Cutter until the next Reset.
+func (s *Server) SetCutter(c Cutter) {
+	s.mu.Lock()
+	s.cutter = c
 	s.mu.Unlock()
 }
 
